@@ -52,7 +52,8 @@ def r04a(ctx: Context) -> None:
             if func in (md_factory, stack_factory):
                 args = site.node.args
                 name_arg = norm(args[0]) if args else ""
-                start_arg = norm(args[3]) if len(args) > 3 else norm(next((k.value for k in site.node.keywords if k.arg == "start_markdown_token"), ast.Constant(value=None)))
+                token_keywords = [k.value for k in site.node.keywords if norm(k.value) in ("self", "self.matching_markdown_token") or (k.arg or "").endswith("markdown_token")]
+                start_arg = norm(args[3]) if len(args) > 3 else norm(token_keywords[0] if token_keywords else ast.Constant(value=None))
                 want_name = "self.token_name" if func == md_factory else "self.type_name"
                 want_start = "self" if func == md_factory else "self.matching_markdown_token"
                 if name_arg != want_name:
